@@ -23,7 +23,13 @@ EvalR(x, d) ==
     [] OTHER        -> "E"
 EvalF(x, d) == EvalR(x, d) = "T"
 
-Matches(T, M)  == T.kind = M.kind /\ T.key = M.key
+\* MQTT: the trigger's key is a topic FILTER (levels T.lv, "+" = exactly one level, "#" = the rest), the message
+\* carries a concrete topic (levels M.lv); every matching subscription is served, and served once
+RECURSIVE TopicMatch(_, _)
+TopicMatch(f, t) == IF f = <<>> THEN t = <<>>
+                    ELSE IF Head(f) = "#" THEN TRUE
+                    ELSE t # <<>> /\ (Head(f) = "+" \/ Head(f) = Head(t)) /\ TopicMatch(Tail(f), Tail(t))
+Matches(T, M)  == T.kind = M.kind /\ IF T.kind = "mqtt" THEN TopicMatch(T.lv, M.lv) ELSE T.key = M.key
 Accepts(T, M)  == Matches(T, M) /\ EvalF(T.flt, M.d)
 
 Merged(args, kw) == [k \in DOMAIN args \cup DOMAIN kw |-> IF k \in DOMAIN kw THEN kw[k] ELSE args[k]]
